@@ -147,6 +147,29 @@ struct A {
             cseen.push_back(it->id);
         if (cseen != model)
             violation("const_iterator enumerates " + join(cseen) + " expected " + join(model));
+        // the other enumeration forms: post-increment (the value returned is
+        // the position before the step), range-for, operator->
+        if (seen == model && cseen == model) {
+            std::vector<int> p1, p2, p3;
+            guard = 0;
+            for (auto it = list->begin(); it != list->end() && guard < 4 * MAXN; ++guard) {
+                auto was = it++;
+                p1.push_back((*was).id);
+            }
+            guard = 0;
+            for (auto it = cl.begin(); it != cl.end() && guard < 4 * MAXN; ++guard) {
+                auto was = it++;
+                p2.push_back(was->id);
+            }
+            for (auto& x : cl)
+                p3.push_back(x.id);
+            if (p1 != model)
+                violation("iterator post-increment enumerates " + join(p1) + " expected " + join(model));
+            if (p2 != model)
+                violation("const_iterator post-increment enumerates " + join(p2) + " expected " + join(model));
+            if (p3 != model)
+                violation("range-for over a const list enumerates " + join(p3) + " expected " + join(model));
+        }
         if (seen == model) { // size() walks the list: only safe if sane
             if (list->size() != model.size())
                 violation("size() = " + std::to_string(list->size()) + " expected " +
@@ -554,6 +577,51 @@ static void check_add_function() {
     first = false;
 }
 
+// one function may be the definition of several methods: each method's catalog
+// holds its own live record for it
+struct key0b;
+struct key0c;
+using M0b = method<key0b, int(virtual_<KA&>), PB>;
+using M0c = method<key0c, int(virtual_<KA&>), PB>;
+static int fshared(KA&) {
+    return 7;
+}
+template<class M>
+static void expect_one_shared(const char* which, size_t before) {
+    ++g_checks;
+    size_t n = 0, mine = 0;
+    for (auto& spec : M::fn.specs) {
+        ++n;
+        if (spec.method == &M::fn && spec.pf)
+            ++mine;
+    }
+    if (n != before + 1 || mine != before + 1 || M::fn.specs.size() != before + 1 ||
+        M::fn.specs.empty())
+        violation(std::string("function shared by several methods: catalog of ") + which +
+                  " enumerates " + std::to_string(n) + " definitions (" + std::to_string(mine) +
+                  " its own), size() " + std::to_string(M::fn.specs.size()) + ", expected " +
+                  std::to_string(before + 1));
+}
+static void check_shared_function() {
+    set_current("B shared function");
+    static bool first = true;
+    if (!first)
+        return; // the records are function-local statics: registered for good
+    first = false;
+    size_t b0 = M0::fn.specs.size(), bb = M0b::fn.specs.size(), bc = M0c::fn.specs.size();
+    M0b::add_function<fshared> r1;
+    ++g_transitions;
+    expect_one_shared<M0b>("the first method", bb);
+    M0::add_function<fshared> r2;
+    ++g_transitions;
+    expect_one_shared<M0>("the second method", b0);
+    expect_one_shared<M0b>("the first method (after the second registration)", bb);
+    M0c::add_function<fshared> r3;
+    ++g_transitions;
+    expect_one_shared<M0c>("the third method", bc);
+    expect_one_shared<M0>("the second method (after the third registration)", b0);
+}
+
 int main(int argc, char** argv) {
     std::string mode = argc > 1 ? argv[1] : "quick";
     if (mode == "replay" && argc > 2) {
@@ -566,6 +634,8 @@ int main(int argc, char** argv) {
             replay_B(what.substr(6), true);
         } else if (what.rfind("B add_function", 0) == 0) {
             check_add_function();
+        } else if (what.rfind("B shared function", 0) == 0) {
+            check_shared_function();
         }
         for (auto& v : g_viol)
             printf("VIOL\t%s\n", v.c_str());
@@ -609,6 +679,7 @@ int main(int argc, char** argv) {
     statesB = bfs_B(samples, depthB);
     all_sequences_B(lenB);
     check_add_function();
+    check_shared_function();
     for (auto& s : samples)
         printf("SAMPLE\t%s\n", s.c_str());
     printf(
